@@ -698,6 +698,10 @@ class Engine:
             present = z3.Select(recv.x[0], key)
             if len(recv.t) == 4 and not self.spec:
                 # defaultdict(list): a missing key yields the empty default (callers here only append to it)
+                if recv.t[2][0] == "dict":
+                    # defaultdict(dict): a missing key yields the empty dict
+                    dflt = V(recv.t[2], (z3.K(sort_of(recv.t[2][1]), FALSE), z3.Const(fresh_name("dval"), z3.ArraySort(sort_of(recv.t[2][1]), sort_of(recv.t[2][2])))))
+                    return [(st, from_term(recv.t[2], z3.If(present, z3.Select(recv.x[1], key), to_term(dflt))))]
                 if recv.t[2][0] not in ("bag", "set"):
                     raise OutOfSubset("defaultdict with non-collection default")
                 empty = z3.K(sort_of(recv.t[2][1]), FALSE)
